@@ -223,6 +223,13 @@ pub struct BackupParams {
     /// false: the backup runs after the writer has finished (quiescent)
     pub concurrent: bool,
     pub step_cap: u64,
+    /// ops[..prefix_len] run before the threads start (so that the backup can meet a
+    /// database that was compacted earlier); the rest runs against the backup
+    #[serde(default)]
+    pub prefix_len: usize,
+    /// the writer ends with the close-time checkpoint (log rewrite when no run is left)
+    #[serde(default)]
+    pub close_at_end: bool,
 }
 
 pub struct BackupCheck;
@@ -263,11 +270,33 @@ impl Check for BackupCheck {
         k.max_txn_ops = rng.range(1, 5) as usize;
         k.big_values = rng.chance(0.1);
         let concurrent = !avoid.iter().any(|a| a == "backup_concurrent_with_writer") && rng.chance(0.7);
-        if concurrent && avoid.iter().any(|a| a == "backup_concurrent_with_compaction") {
-            k.w_top[2] = 0;
+        let mut ops = gen_history(&mut rng, &k);
+        let mode = gen_mode(&mut rng);
+        let prefix_len = if concurrent && rng.chance(0.5) { rng.range(0, ops.len() as u64) as usize } else { 0 };
+        let mut close_at_end = rng.chance(0.5);
+        if avoid.iter().any(|a| a == "label_ops_with_checkpoint") {
+            // F05: the close-time log rewrite drops every label but the creation label
+            let label_rich = ops.iter().any(|o| match o {
+                Op::Txn { ops, .. } => ops.iter().any(|t| match t {
+                    crate::model::TOp::CreateNode { labels, .. } => labels.len() > 1,
+                    crate::model::TOp::AddLabel { .. } | crate::model::TOp::RemoveLabel { .. } => true,
+                    _ => false,
+                }),
+                _ => false,
+            });
+            if label_rich {
+                close_at_end = false;
+            }
         }
-        let ops = gen_history(&mut rng, &k);
-        let params = BackupParams { mode: gen_mode(&mut rng), concurrent, step_cap: 200_000 };
+        if concurrent && avoid.iter().any(|a| a == "backup_concurrent_with_compaction") {
+            // F20: no compaction while the backup may be running (the prefix may compact)
+            let mut i = 0;
+            ops.retain(|o| {
+                i += 1;
+                i <= prefix_len || !matches!(o, Op::Compact)
+            });
+        }
+        let params = BackupParams { mode, concurrent, step_cap: 200_000, prefix_len: prefix_len.min(ops.len()), close_at_end };
         Case {
             property: "C29".into(),
             config: if concurrent { "backup_vs_writer".into() } else { "backup_quiescent".into() },
@@ -309,6 +338,7 @@ impl Check for BackupCheck {
         let engine_slot: Arc<Mutex<Option<Arc<GraphEngine>>>> = Arc::new(Mutex::new(None));
         let ev = Arc::new(AtomicU64::new(1));
         let op_events: Arc<Mutex<Vec<(u64, u64)>>> = Arc::new(Mutex::new(Vec::new()));
+        let prefix_model: Arc<Mutex<Model>> = Arc::new(Mutex::new(Model::default()));
         let backup_result: Arc<Mutex<Option<(u64, u64, Result<String, String>)>>> = Arc::new(Mutex::new(None));
         let werr: Arc<Mutex<Option<String>>> = Arc::new(Mutex::new(None));
         let backup_dir = sb.dir.join("backups");
@@ -318,13 +348,15 @@ impl Check for BackupCheck {
             let slot = engine_slot.clone();
             let ev = ev.clone();
             let op_events = op_events.clone();
-            let ops2 = ops.clone();
+            let ops2 = ops[params.prefix_len.min(ops.len())..].to_vec();
             let werr = werr.clone();
+            let pm = prefix_model.clone();
+            let close_at_end = params.close_at_end;
             programs.push((
                 "writer".into(),
                 Box::new(move || {
                     let engine = slot.lock().unwrap().clone().unwrap();
-                    let mut model = Model::default();
+                    let mut model = pm.lock().unwrap().clone();
                     for op in &ops2 {
                         let b = ev.fetch_add(1, Ordering::SeqCst);
                         let r = exec_shared(&engine, &mut model, op);
@@ -332,8 +364,11 @@ impl Check for BackupCheck {
                         op_events.lock().unwrap().push((b, a));
                         if let Err(e) = r {
                             *werr.lock().unwrap() = Some(e);
-                            break;
+                            return;
                         }
+                    }
+                    if close_at_end && let Err(e) = engine.checkpoint_on_close() {
+                        *werr.lock().unwrap() = Some(format!("checkpoint_on_close: {e}"));
                     }
                 }),
             ));
@@ -359,7 +394,18 @@ impl Check for BackupCheck {
         let run = run_threads(&sb.dir, case.seed, params.mode.clone(), params.step_cap, case.schedule.clone(), programs, |world| {
             let _g = world.install();
             match Runner::open(&dir) {
-                Ok(mut r) => *slot2.lock().unwrap() = Some(Arc::new(r.engine.take().unwrap())),
+                Ok(mut r) => {
+                    let engine = r.engine.take().unwrap();
+                    let mut m = Model::default();
+                    for op in &ops[..params.prefix_len.min(ops.len())] {
+                        if let Err(e) = exec_shared(&engine, &mut m, op) {
+                            open_err = Some(format!("prefix: {e}"));
+                        }
+                        op_events.lock().unwrap().push((0, 0));
+                    }
+                    *prefix_model.lock().unwrap() = m;
+                    *slot2.lock().unwrap() = Some(Arc::new(engine));
+                }
                 Err(e) => open_err = Some(e),
             }
         });
@@ -375,7 +421,11 @@ impl Check for BackupCheck {
         }
         *engine_slot.lock().unwrap() = None;
         if let Some(e) = open_err {
-            res.harness_error = Some(e);
+            if e.starts_with("prefix:") {
+                res.stats.inc("foreign_discrepancy");
+            } else {
+                res.harness_error = Some(e);
+            }
             return res;
         }
         res.stats.inc("evaluations");
@@ -383,6 +433,12 @@ impl Check for BackupCheck {
         res.stats.add("context_switches", run.switches);
         res.stats.see("schedules", run.ctx_hash);
         res.stats.inc(if params.concurrent { "config:concurrent" } else { "config:quiescent" });
+        if params.close_at_end {
+            res.stats.inc("probe:writer_ends_with_close_checkpoint");
+        }
+        if params.prefix_len > 0 {
+            res.stats.inc("probe:backup_of_previously_compacted_or_filled_db");
+        }
         if std::env::var("VERIF_DEBUG").is_ok() {
             eprintln!("C29CASE {} steps={} points={:?}", case.seed, run.steps, run.points);
         }
@@ -481,7 +537,7 @@ impl Check for BackupCheck {
         res
     }
     fn rule(&self) -> String {
-        "A writer thread executes a generated L1 history (commits, compaction, index creation) while a backup thread calls nervusdb::backup(path, dir); the backup's file operations are scheduling points, so writer steps land between and inside the page-file and log copies. In the quiescent configuration the backup starts after the writer has finished. After completion the backup is restored into a fresh directory, opened and dumped: the content must equal one model state S_j between the operations acknowledged before the backup began and those begun before it returned. evaluations = simulated runs; distinct_nontrivial = distinct context-switch sequences.".into()
+        "A writer thread executes a generated L1 history (commits, compaction, index creation; a PRNG-chosen prefix of it runs before the threads start, and in half of the cases the writer ends with the close-time checkpoint, i.e. the log rewrite of Db::close) while a backup thread calls nervusdb::backup(path, dir); the backup's file operations are scheduling points, so writer steps land between and inside the page-file and log copies. In the quiescent configuration the backup starts after the writer has finished. After completion the backup is restored into a fresh directory, opened and dumped: the content must equal one model state S_j between the operations acknowledged before the backup began and those begun before it returned. evaluations = simulated runs; distinct_nontrivial = distinct context-switch sequences.".into()
     }
     fn nontrivial_set(&self) -> &'static str {
         "schedules"
